@@ -28,6 +28,11 @@ SCRATCH = 0x10           # internal-memory scratch byte used by INCM
 
 IMR = 0xFB
 ISR = 0xFC
+BP = 0xEC                # internal-memory base pointer and index registers used by the (BP+n)/(PX+n)/(PY+n) modes
+PX = 0xED
+PY = 0xEE
+IM_LO = 0x00             # internal-memory window dumped into every observation: user RAM 00-EB and BP/PX/PY
+IM_HI = 0xEF
 
 # name -> (encoder(arg) -> bytes, text(arg) -> rendered disassembly)
 _T: Dict[str, Tuple[Any, Any]] = {
@@ -45,6 +50,9 @@ _T: Dict[str, Tuple[Any, Any]] = {
     "INCA": (lambda a: b"\x6c\x00", lambda a: "INC   A"),
     "INCM": (lambda a: bytes([0x30, 0x6D, a & 0xFF]), lambda a: f"INC   ({a & 0xFF:02X})"),
     "KIL": (lambda a: b"\x30\x80\xf2", lambda a: "MV    A, (KIL)"),
+    "BPW": (lambda a: bytes([0x30, 0xCC, BP, a & 0xFF]), lambda a: f"MV    (BP), {a & 0xFF:02X}"),
+    "PXW": (lambda a: bytes([0x30, 0xCC, PX, a & 0xFF]), lambda a: f"MV    (PX), {a & 0xFF:02X}"),
+    "PYW": (lambda a: bytes([0x30, 0xCC, PY, a & 0xFF]), lambda a: f"MV    (PY), {a & 0xFF:02X}"),
     "JRB": (lambda a: bytes([0x13, a & 0xFF]), lambda a: f"JR    -{a & 0xFF:02X}"),
 }
 
@@ -52,7 +60,7 @@ _T: Dict[str, Tuple[Any, Any]] = {
 _SLOTS = {
     "NOP": ["NOP"], "HALT": ["HALT"], "OFF": ["OFF"], "IMR": ["IMR"], "ISR": ["ISR"], "ACK": ["ACK"],
     "ORIMR": ["ORIMR"], "ANDIMR": ["ANDIMR"], "INCA": ["INCA"], "INCM": ["INCM"], "KIL": ["KIL"],
-    "WAIT": ["MVI", "WAITI"],
+    "WAIT": ["MVI", "WAITI"], "BPW": ["BPW"], "PXW": ["PXW"], "PYW": ["PYW"],
 }
 
 
@@ -65,8 +73,9 @@ def text(name: str, arg: int = 0) -> str:
 
 
 def _meta(name: str, arg: int, addr: int, ln: int) -> Dict[str, Any]:
+    # "imw": effect on the observed internal-memory window: None | ["set", offset, value] | ["inc", offset]
     m: Dict[str, Any] = {"kind": name, "arg": arg, "len": ln, "next": addr + ln, "imr": None, "isr_w": False,
-                         "clob": []}
+                         "clob": [], "imw": None}
     if name == "IMR":
         m["imr"] = ["set", arg & 0xFF]
     elif name == "ORIMR":
@@ -75,6 +84,10 @@ def _meta(name: str, arg: int, addr: int, ln: int) -> Dict[str, Any]:
         m["imr"] = ["and", arg & 0xFF]
     elif name in ("ISR", "ACK"):
         m["isr_w"] = True
+    elif name == "INCM":
+        m["imw"] = ["inc", arg & 0xFF]
+    elif name in ("BPW", "PXW", "PYW"):
+        m["imw"] = ["set", {"BPW": BP, "PXW": PX, "PYW": PY}[name], arg & 0xFF]
     elif name in ("INCA", "KIL"):
         m["clob"] = ["BA"]
     elif name in ("MVI", "WAITI"):
@@ -131,6 +144,19 @@ def image(segs: List[Tuple[int, bytes]]) -> bytes:
     return bytes(rom)
 
 
+def imem_init(sc: Dict[str, Any]) -> List[Tuple[int, bytes]]:
+    """Initial internal-memory contents of a scenario as (offset, bytes) segments, identical for both models:
+    optional pattern fill of the user RAM 00-EB ("imfill": seed) and the base/index registers BP, PX, PY."""
+    segs: List[Tuple[int, bytes]] = []
+    fill = sc.get("imfill")
+    if fill is not None:
+        segs.append((0x00, bytes(((i * 37) ^ (int(fill) * 11) ^ 0x5A) & 0xFF for i in range(BP))))
+    for key, off in (("bp0", BP), ("px0", PX), ("py0", PY)):
+        if sc.get(key) is not None:
+            segs.append((off, bytes([int(sc[key]) & 0xFF])))
+    return segs
+
+
 def handler_clobbers(meta: Dict[int, Dict[str, Any]]) -> List[str]:
     out = set()
     for m in meta.values():
@@ -146,7 +172,8 @@ def selftest() -> List[str]:
     bad: List[str] = []
     samples = [("NOP", 0), ("RETI", 0), ("HALT", 0), ("OFF", 0), ("WAITI", 0), ("MVI", 0x0123), ("MVI", 7),
                ("IMR", 0x8F), ("IMR", 0x00), ("ISR", 0x00), ("ISR", 0x05), ("ACK", 0xFE), ("ORIMR", 0x80),
-               ("ANDIMR", 0x7F), ("INCA", 0), ("INCM", SCRATCH), ("KIL", 0), ("JRB", 0x23)]
+               ("ANDIMR", 0x7F), ("INCA", 0), ("INCM", SCRATCH), ("KIL", 0), ("JRB", 0x23),
+               ("BPW", 0x10), ("PXW", 0xA5), ("PYW", 0xFF)]
     for name, arg in samples:
         b = encode(name, arg)
         r = G.text_of(b + G.NOP_PAD, MAIN)
